@@ -7,7 +7,7 @@ ORACLE = "Assumes SHA-512/256 collision freedom and the correctness of the ~450-
 # id -> (category, technique, text, note, design section)
 CHECKS = {
  "C01": ("exploration", "runtime monitoring: reference-model oracle over enumerated and seeded block histories",
-  "Roots and leaf count of Stump, Pollard and MapPollard (full/partial, TotalRows 0..63) are compared with an independent reference model after every block of enumerated small-scope and seeded random histories, and under two other batchings of the same per-leaf fate; held on the executions observed.",
+  "Roots and leaf count of Stump, Pollard and MapPollard (full/partial, TotalRows 0..63) are compared with an independent reference model after every block of enumerated small-scope and seeded random histories, under two other batchings of the same per-leaf fate, and after every operation of forest scenarios (undo, re-applied blocks, remember/ingest/prune, refused calls, reloads); held on the executions observed.",
   ORACLE),
  "C02": ("exploration", "runtime monitoring: canonical-proof oracle (reference model) over every state of generated histories",
   "At every state of the generated histories Pollard and MapPollard (full/partial) are asked for singletons, the full set, all subsets of small forests and random subsets in random request order; targets, proof hashes, cross-implementation identity, acceptance by every verifier and Verify's root indexes are compared with the reference model's canonical proof.",
@@ -22,7 +22,7 @@ CHECKS = {
   "Each block's honest proof is re-encoded (permuted pairs, trailing junk hashes, AddProof/GetProofSubset assemblies, updated cached proofs); every encoding Verify accepts is applied to Stump, Pollard and MapPollard (full/partial, several TotalRows) and the resulting roots/leaf count are compared with the reference model.",
   ORACLE),
  "C06": ("exploration", "runtime monitoring: reference-model snapshots, never-saw-it twin instances and a structure walk hook after every undo/redo",
-  "Histories of apply/undo-k/redo rounds (incl. full unwinds, emptied trees, overwritten empty roots) on Pollard, full and partial MapPollard: undone blocks are also re-applied from their own (shared, uncopied) records; after every Undo roots, leaf count, every tracked leaf's position, GetHash of every position and proofs are compared with the reference model's snapshot of the earlier state and with a twin that never saw the undone blocks; Pollard's pointer structure is walked by the VerifCheckStructure hook.",
+  "Histories of apply/undo-k/redo rounds (incl. full unwinds, emptied trees, overwritten empty roots, reloads from the instance's own bytes, blocks whose proof carries a surplus hash, hash-less undos on full forests) on Pollard, full and partial MapPollard: undone blocks are also re-applied from their own (shared, uncopied) records; after every Undo roots, leaf count, every tracked leaf's position, GetHash of every position and proofs are compared with the reference model's snapshot of the earlier state and with a twin that never saw the undone blocks; Pollard's pointer structure is walked by the VerifCheckStructure hook.",
   ORACLE),
  "C07": ("exploration", "runtime monitoring: reference-model oracle over a light client driven only by block data",
   "A light client (Stump + Proof + hashes) is updated with block targets, added hashes, remember indexes and its own UpdateData (its cached proof sometimes re-ordered through GetProofSubset first) along enumerated (every remember subset) and seeded histories; the held leaf set, each position, the proof hashes and acceptance by Verify are compared with the reference model after every block.",
@@ -43,13 +43,13 @@ CHECKS = {
   "Built with -race and the verif hooks: readers of every query kind (short and long requests, incl. concurrent remembering verifiers on full forests) run against a writer executing Modify/Undo/Ingest/Prune/Verify(remember)/Read (succeeding and failing); race-detector reports are de-duplicated by entry-point pair; at each of ten pause sites (inside the writer's critical section, inside Write, inside a concurrent verifier) the recorded call/return history is checked with porcupine against per-block reference states so a query that saw a half-applied block is Illegal; deadlocks and panics are caught by join watchdogs.",
   "Covers only the interleavings produced (forced pauses at hooked sites plus free-running schedules); the Go scheduler is not controllable and rr is unavailable."),
  "C13": ("fault_enumeration", "runtime monitoring with fault injection: every truncation offset, every writer failure offset and six reader chunkings per serialized state",
-  "For each sampled end state of Pollard, full and partial MapPollard (small, tens-of-KB and from-roots forests up to 2^63 leaves) the stream is restored through every reader chunking, from every strict prefix and written to sinks failing at every offset; restored instances are compared observationally with the original (and evolved further, incl. undoing a block older than the stream), byte counts and SerializeSize are checked, and silent acceptance of a damaged stream or a panic is a violation.",
+  "For each sampled end state of Pollard, full and partial MapPollard (small, tens-of-KB and from-roots forests up to 2^63 leaves) the stream is restored through every reader chunking (also two records back to back from one byte-counting reader), from every strict prefix and written to sinks failing at every offset; restored instances are compared observationally with the original (and evolved further, incl. undoing a block older than the stream), byte counts and SerializeSize are checked, and silent acceptance of a damaged stream or a panic is a violation.",
   "The fault space is enumerated completely per state; the states themselves are sampled. In-process io.Reader/io.Writer faults (the library does no system calls)."),
  "C14": ("exploration", "runtime monitoring: canonical-proof oracle for AddProof/GetProofSubset/GetMissingPositions/VerifyPartialProof",
-  "At states of generated histories pairs of target sets (overlapping, disjoint, nested, cross-tree; sorted and prover order) are combined, restricted and completed; results are compared with the reference model's canonical proofs and missing-position sets, error/no-error with coverage, and the completed partial proofs must verify (and fail when one supplied hash is corrupted).",
+  "At states of generated histories pairs of target sets (overlapping, disjoint, nested, cross-tree; sorted and prover order) are combined, restricted and completed; results are compared with the reference model's canonical proofs and missing-position sets, error/no-error with coverage (uncovered wants incl. computable ancestors and carried siblings), and the completed partial proofs must verify (and fail when one supplied hash is corrupted).",
   ORACLE),
  "C15": ("exploration", "runtime monitoring: leaf-lifetime ledger oracle over enumerated and seeded block summaries",
-  "AddBlockSummary/GenerateCachingSchedule are run along enumerated small-scope and seeded histories for several memory limits; each scheduled position must be the slot of a leaf added in that block and deleted later, unique and ascending, the number of scheduled leaves alive at any block must not exceed the limit, and an unbounded limit must schedule every qualifying leaf.",
+  "AddBlockSummary/GenerateCachingSchedule are run along enumerated small-scope and seeded histories for several memory limits (schedules also asked part-way through a recording; one reused deletions buffer); each scheduled position must be the slot of a leaf added in that block and deleted later, unique and ascending, the number of scheduled leaves alive at any block must not exceed the limit, and an unbounded limit must schedule every qualifying leaf.",
   "The ledger is kept by the generator itself; no library code is involved in the oracle."),
  "C16": ("exploration", "runtime monitoring: math/big geometry oracle, exhaustive for small heights, boundary/random for heights up to 63",
   "Exported position functions are compared with an independent big-integer geometry: exhaustively for heights <= 6 (all positions, leaf counts, target subsets of forests <= 8 leaves for ProofPositions) and on boundary and random 64-bit values for every height up to 63.",
